@@ -23,6 +23,7 @@ def plan(tier, seed):
         (corner("unit8", prefix=A.GL, name="unit8-fall-tail"), A.fall_tail(rise=60), 4),
         (corner("real", prefix=A.DEEP_GL_EOM, name="real-deep-root-in-eom"), A.timing(), 2),
         (corner("real", prefix=[("slm", ["q0"])] + A.GL, name="real-ising-slm-mask"), A.timing(dmm=True), 2),
+        (corner("real", prefix=A.GL, max_dur=100, retarget=220, name="real-max-duration-below-waits"), A.timing(), 2),
         (corner("unit8", prefix=A.GL, bw=30, eom=dict(mod_bandwidth=8), name="unit8-eom-slower-than-channel"), A.timing(), 2),
         (corner("awk", prefix=A.DEEP_GL_AFTER, name="awk-deep-root-after-eom"), A.timing(), 2),
     ]
